@@ -275,6 +275,14 @@ impl DocumentBlock {
             DocumentBlock::Plain(plain) => plain.inlines.clone(),
             DocumentBlock::Para(para) => para.inlines.clone(),
             DocumentBlock::Header(header) => header.inlines.clone(),
+            // the inlines of every cell, header first, then row by row
+            DocumentBlock::Table(table) => table
+                .header
+                .iter()
+                .chain(table.rows.iter().flatten())
+                .flatten()
+                .cloned()
+                .collect(),
             _ => vec![],
         }
     }
